@@ -16,6 +16,7 @@ PROP = {  # commit subject fragment -> (property, id)
  "OwnedLazyValue::from(LazyValue) of true/false/null": ("C13", "F5"),
  "as_array()/as_object() of a raw OwnedLazyValue": ("C13", "F6"),
  "LazyValue::as_raw_number answers Some": ("C13", "F14"),
+ "recursion limit of the serde deserializer never triggers": ("C01", "F1a"),
 }
 KNOWN = []
 out = []
